@@ -275,6 +275,16 @@ def greedy_run(case):
         calls.append((leaves.copy(), Y.copy(), Z.copy(), int(n_clusters), int(K_max), int(n_leaves), int(min_leaf), feats.copy(), split_dict(s)))
         return s
     model = Kauri(kernel="precomputed", random_state=seed, **params)
+    if params.get("max_features") == 1 or kernel_kind == "indef":
+        # history: the estimator went through the documented fallback path first (precomputed kernel forgotten: warning + linear kernel)
+        import warnings
+        with warnings.catch_warnings():
+            warnings.simplefilter("ignore")
+            try:
+                model.fit(X)
+                model.score(X)
+            except Exception:  # noqa
+                pass
     kmod.find_best_split = spy
     try:
         model.fit(X, Kmat)
